@@ -1317,7 +1317,22 @@ private:
     if (!left.has_partitions() && !right.has_partitions()) {
       return (left.m_absval <= right.m_absval);
     } else if (!left.has_partitions() && right.has_partitions()) {
-      return (left.m_absval <= right.merge_product());
+      // right's partitions cannot be merged (joined): the result would
+      // describe more than right does. right is the intersection of its
+      // product elements and each element is the union of its partitions.
+      for (auto const &right_val : right.m_product) {
+        bool included = false;
+        for (auto const &partition : right_val.m_partitions) {
+          if (left.m_absval <= partition.get_dom()) {
+            included = true;
+            break;
+          }
+        }
+        if (!included) {
+          return false;
+        }
+      }
+      return true;
     } else if (left.has_partitions() && !right.has_partitions()) {
       return (left.merge_product() <= right.m_absval);
     }
